@@ -30,9 +30,10 @@ def parseIdent (flavor s : String) : Option (Option Nat) :=
     | "A" => some (some 0) | "B" => some (some 1) | "C" => some (some 2)
     | _ => some none
   else
-    -- ShardIndex: `s.parse::<u32>()`
-    match s.toNat? with
-    | some n => if n < 4294967296 && s.all Char.isDigit then some (some n) else some none
+    -- ShardIndex: `s.parse::<u32>()` (decimal digits, one optional leading `+`, leading zeros allowed)
+    let d : String := if s.startsWith "+" then (s.drop 1).toString else s
+    match d.toNat? with
+    | some n => if n < 4294967296 && d.all Char.isDigit then some (some n) else some none
     | none => some none
 
 def showDerived : Derived Nat → String
@@ -91,7 +92,10 @@ without the matching peer identity; collector routes must not answer 401; under 
 ignored; without TLS only the header counts. -/
 def validIdentString (server v : String) : Bool :=
   if server == "mpc" then v == "A" || v == "B" || v == "C"
-  else v.length > 0 && v.length < 10 && v.all Char.isDigit
+  else
+    -- what `u32::from_str` accepts
+    let d : String := if v.startsWith "+" then (v.drop 1).toString else v
+    d.length > 0 && d.all Char.isDigit && (d.toNat?.getD 4294967296) < 4294967296
 
 def oracle (toks : List String) (impl : String) : Option String :=
   match toks with
